@@ -1,8 +1,6 @@
 #![allow(clippy::many_single_char_names)]
 #![allow(dead_code)]  // TODO
 
-use itertools::Itertools;
-
 use crate as pdf;
 use crate::error::*;
 use crate::object::{Object, Ref, Resolve, Stream};
@@ -139,16 +137,19 @@ fn encode_nibble(c: u8) -> u8 {
 
 pub fn decode_hex(data: &[u8]) -> Result<Vec<u8>> {
     let mut out = Vec::with_capacity(data.len() / 2);
-    let pairs = data.iter().cloned()
+    let mut digits = data.iter().cloned()
         .take_while(|&b| b != b'>')
-        .filter(|&b| !matches!(b, 0 | 9 | 10 | 12 | 13 | 32))
-        .tuples();
-    for (i, (high, low)) in pairs.enumerate() {
+        .filter(|&b| !matches!(b, 0 | 9 | 10 | 12 | 13 | 32));
+    let mut i = 0;
+    while let Some(high) = digits.next() {
+        // an odd number of digits is completed by 0
+        let low = digits.next().unwrap_or(b'0');
         if let (Some(low), Some(high)) = (decode_nibble(low), decode_nibble(high)) {
             out.push(high << 4 | low);
         } else {
             return Err(PdfError::HexDecode {pos: i * 2, bytes: [high, low]})
         }
+        i += 1;
     }
     Ok(out)
 }
